@@ -76,6 +76,10 @@ func (Engine) Generate(prop, tier string, seed, run uint64) json.RawMessage {
 			dir := r.IntN(2)
 			for j := 0; j < nc; j++ {
 				c := Chunk{Dir: dir, Seed: r.Uint32(), DtUS: int64(r.IntN(3)) * int64(r.IntN(2_000_000)), CT: cts[r.IntN(len(cts))]}
+				if r.IntN(12) == 0 {
+					// a converter may report any time: before the stream's first packet, or going backwards
+					c.DtUS = -int64(1 + r.IntN(5_000_000))
+				}
 				switch q := r.IntN(10); {
 				case q < 6:
 					c.Len = 1 + r.IntN(40)
